@@ -3,11 +3,15 @@
 package main
 
 import (
+	"verif/internal/scen/c11"
+	"verif/internal/scen/c13"
 	"verif/internal/scen/c14"
 	"verif/internal/worker"
 )
 
 func main() {
+	worker.Register(c11.Scenario{})
+	worker.Register(c13.Scenario{})
 	worker.Register(c14.Scenario{})
 	worker.Main()
 }
